@@ -55,6 +55,10 @@ pub fn take_log() -> Vec<String> {
     LOG.with(|l| std::mem::take(&mut *l.borrow_mut()))
 }
 
+pub fn peek_last_obs() -> Option<String> {
+    LOG.with(|l| l.borrow().iter().rev().find(|x| x.starts_with("OBS ")).cloned())
+}
+
 pub fn log_len() -> usize {
     LOG.with(|l| l.borrow().len())
 }
